@@ -127,6 +127,7 @@ type Exec struct {
 	inputs     []string
 	fmtHyp     []Term // hypotheses under which the verb/operand obligations are stated (fmtwhen)
 	fuelFor    map[string]int
+	allSyms    map[string]bool
 }
 
 func (x *Exec) unsupported(format string, a ...any) {
